@@ -56,12 +56,28 @@ def apply_variant(d):
         py_swap_cmp.main(d)
 
 
+def apply_variant2(d):
+    """the second family of generators (Appendix D, sixth and seventh batch), applied AFTER the
+    mutant's edit: the mutated tree - mutant included - is rewritten with split guards, an else
+    after every exiting guard, conditions through their negations, const-less locals and keyword
+    arguments for engine calls.  The canonical form of the front ends must give the rules the same
+    mutant back."""
+    import split_conditions, else_after_exit, demorgan, drop_const, py_c_keywords
+    import io, contextlib
+    with _VARIANT_LOCK, contextlib.redirect_stdout(io.StringIO()):
+        demorgan.main(d)
+        split_conditions.main(d)
+        else_after_exit.main(d)
+        drop_const.main(d)
+        py_c_keywords.main(d)
+
+
 def one(mu, base):
     t0 = time.time()
     d = os.path.join(base, mu['id'])
     os.makedirs(d)
     copy_repo(d)
-    if VARIANT:
+    if VARIANT is True:
         apply_variant(d)
     # edits: (old, new) in the mutant's file, or (file, old, new) for a second file
     edits = [(mu['file'], mu['old'], mu['new'])] + [
@@ -76,6 +92,12 @@ def one(mu, base):
                 return {'id': mu['id'], 'ok': None, 'why': 'pattern gone in the variant'}
             return {'id': mu['id'], 'ok': False, 'why': 'pattern matches %d times in %s' % (n, fname)}
         open(p, 'w').write(s.replace(old, new))
+    if VARIANT == 2:
+        try:
+            apply_variant2(d)
+        except SyntaxError as e:
+            shutil.rmtree(d, ignore_errors=True)
+            return {'id': mu['id'], 'ok': None, 'why': 'the mutated Python file does not parse: %s' % e}
     rc, out = run_check(d, mu['prop'], None, base)
     fired = re.findall(r'^  rule (\S+) at (\S+) \[(.*?)\]: ', out, re.M)
     hit = [f for f in fired if f[0] == mu['rule'] and mu['key'] in f[2]]
@@ -97,6 +119,9 @@ def main():
     if '--variant' in args:
         args.remove('--variant')
         VARIANT = True
+    if '--variant2' in args:
+        args.remove('--variant2')
+        VARIANT = 2
     if '-j' in args:
         i = args.index('-j')
         jobs = int(args[i + 1])
@@ -134,7 +159,8 @@ def main():
     if VARIANT:
         if not args:
             json.dump({'results': results, 'skipped': [r['id'] for r in skipped]},
-                      open(os.path.join(HERE, 'last_run_variant.json'), 'w'), indent=1)
+                      open(os.path.join(HERE, 'last_run_variant2.json' if VARIANT == 2 else 'last_run_variant.json'), 'w'),
+                      indent=1)
         return 0 if okc == len(results) else 1
     if not args:
         json.dump({'results': results, 'clean_silent': not bad_clean},
